@@ -42,9 +42,70 @@ theorem filter_seqFrom (s c : Nat) (L : List Entry) (h : seqFrom s L) :
       have : c - s = (c - (s + 1)) + 1 := by omega
       rw [this, List.drop_succ_cons]
 
+theorem capCount_le (cap : Nat) : ∀ (l : List Entry) (i total : Nat), capCount cap i total l ≤ i + l.length := by
+  intro l
+  induction l with
+  | nil => intro i total; simp [capCount]
+  | cons e es ih =>
+    intro i total
+    simp only [capCount, List.length_cons]
+    split
+    · omega
+    · have := ih (i + 1) (total + e.size); omega
+
+theorem capCount_ge (cap : Nat) : ∀ (l : List Entry) (i total : Nat), i ≤ capCount cap i total l := by
+  intro l
+  induction l with
+  | nil => intro i total; simp [capCount]
+  | cons e es ih =>
+    intro i total
+    simp only [capCount]
+    split
+    · omega
+    · have := ih (i + 1) (total + e.size); omega
+
+theorem capCount_pos (cap : Nat) (e : Entry) (es : List Entry) : 0 < capCount cap 0 0 (e :: es) := by
+  have h : capCount cap 0 0 (e :: es) = capCount cap (0 + 1) (0 + e.size) es := by simp [capCount]
+  rw [h]
+  exact Nat.lt_of_lt_of_le (by decide) (capCount_ge cap es (0 + 1) _)
+
+/-- the cap never cuts a list whose total size fits it -/
+theorem capCount_all (cap : Nat) : ∀ (l : List Entry) (i total : Nat), total + (l.map Entry.size).sum ≤ cap →
+    capCount cap i total l = i + l.length := by
+  intro l
+  induction l with
+  | nil => intro i total _; simp [capCount]
+  | cons e es ih =>
+    intro i total h
+    simp only [List.map_cons, List.sum_cons] at h
+    simp only [capCount, List.length_cons]
+    rw [if_neg (by omega), ih (i + 1) (total + e.size) (by omega)]
+    omega
+
+/-- the window the primary cuts its answer from: the entries from position `c` on, at most `n` of them -/
+abbrev window (L : List Entry) (c n : Nat) : List Entry := (L.drop (c - 1)).take n
+
 theorem selectFrom_eq (L : List Entry) (c n : Nat) (h : NoSharedSeq L) :
-    selectFrom L c n = (L.drop (c - 1)).take n := by
+    selectFrom L c n = (window L c n).take (capCount pollBytes 0 0 (window L c n)) := by
   unfold selectFrom; rw [filter_seqFrom 1 c L h]
+
+theorem selectFrom_length (L : List Entry) (c n : Nat) (h : NoSharedSeq L) :
+    (selectFrom L c n).length = capCount pollBytes 0 0 (window L c n) := by
+  rw [selectFrom_eq L c n h, List.length_take]
+  have := capCount_le pollBytes (window L c n) 0 0
+  omega
+
+theorem selectFrom_ne_nil (L : List Entry) (c n : Nat) (h : NoSharedSeq L) (hw : window L c n ≠ []) :
+    selectFrom L c n ≠ [] := by
+  intro hnil
+  have hl := selectFrom_length L c n h
+  rw [hnil] at hl
+  cases hwd : window L c n with
+  | nil => exact hw hwd
+  | cons e t => rw [hwd] at hl; have := capCount_pos pollBytes e t; simp at hl; omega
+
+theorem selectFrom_prefix (L : List Entry) (c n : Nat) (h : NoSharedSeq L) : selectFrom L c n <+: window L c n := by
+  rw [selectFrom_eq L c n h]; exact List.take_prefix _ _
 
 theorem applyRun_seqFrom (v : View) (p : Nat) (t : List Entry) (h : seqFrom (p + 1) t) :
     applyRun v p t = (t.foldl applyEntry v, p + t.length, false) := by
@@ -69,8 +130,8 @@ theorem drop_take_infix (L : List Entry) (i n : Nat) : (L.drop i).take n <:+: L 
   refine ⟨L.take i, (L.drop i).drop n, ?_⟩
   rw [List.append_assoc, List.take_append_drop, List.take_append_drop]
 
-theorem selectFrom_infix (L : List Entry) (c n : Nat) (h : NoSharedSeq L) : selectFrom L c n <:+: L := by
-  rw [selectFrom_eq L c n h]; exact drop_take_infix L _ _
+theorem selectFrom_infix (L : List Entry) (c n : Nat) (h : NoSharedSeq L) : selectFrom L c n <:+: L :=
+  List.IsInfix.trans (selectFrom_prefix L c n h).isInfix (drop_take_infix L _ _)
 
 /-- applying any contiguous piece of a log without shared numbers keeps the applier on a prefix of that log, never moves
     it backwards, and moves it by the whole piece when the piece starts at the expected number -/
@@ -438,9 +499,47 @@ theorem applyMsg_ok_ap (w : World) (a : Applier) (es : List Entry) (ha : w.ap = 
     (applyMsg w es).1.ap = (applyBatch a es).1 := by
   subst ha; unfold applyMsg; simp [h]
 
-/-- a fresh delivery moves the cursor by min(limit, backlog) -/
-theorem fresh_progress (w : World) (h : Inv w) (hf : Fresh w .recv) :
-    min (w.log.length + 1) (w.ap.exp + w.limit) ≤ (step w .recv).ap.exp := by
+/-- `q` entries per message are guaranteed: whatever window the primary cuts its answer from, the byte cap leaves at least
+    `min q (window length)` entries. `q = 1` always holds (the first entry is always kept); `q = limit` holds when no
+    window of the log exceeds the cap. -/
+def Quantum (w : World) (q : Nat) : Prop :=
+  q ≤ w.limit ∧ ∀ c, min q (window w.log c w.limit).length ≤ capCount pollBytes 0 0 (window w.log c w.limit)
+
+theorem quantum_one (w : World) (hl : 0 < w.limit) : Quantum w 1 := by
+  refine ⟨hl, fun c => ?_⟩
+  cases hw : window w.log c w.limit with
+  | nil => simp
+  | cons e t => have := capCount_pos pollBytes e t; simp only [List.length_cons]; omega
+
+theorem sum_take_le (l : List Nat) (n : Nat) : (l.take n).sum ≤ l.sum := by
+  induction l generalizing n with
+  | nil => simp
+  | cons a t ih =>
+    cases n with
+    | zero => simp
+    | succ n => simp only [List.take_succ_cons, List.sum_cons]; have := ih n; omega
+
+theorem sum_drop_le (l : List Nat) (n : Nat) : (l.drop n).sum ≤ l.sum := by
+  induction l generalizing n with
+  | nil => simp
+  | cons a t ih =>
+    cases n with
+    | zero => simp
+    | succ n => simp only [List.drop_succ_cons, List.sum_cons]; have := ih n; omega
+
+/-- a log whose entries together fit the response cap is never cut by it: the full poll limit is guaranteed -/
+theorem quantum_limit (w : World) (hs : (w.log.map Entry.size).sum ≤ pollBytes) : Quantum w w.limit := by
+  refine ⟨Nat.le_refl _, fun c => ?_⟩
+  have h1 : ((window w.log c w.limit).map Entry.size).sum ≤ (w.log.map Entry.size).sum := by
+    unfold window
+    rw [List.map_take, List.map_drop]
+    exact Nat.le_trans (sum_take_le _ _) (sum_drop_le _ _)
+  rw [capCount_all pollBytes _ 0 0 (by omega)]
+  omega
+
+/-- a fresh delivery moves the cursor by min(q, backlog) -/
+theorem fresh_progress (w : World) (h : Inv w) (q : Nat) (hq : Quantum w q) (hf : Fresh w .recv) :
+    min (w.log.length + 1) (w.ap.exp + q) ≤ (step w .recv).ap.exp := by
   obtain ⟨_, hst, hhead⟩ := hf
   obtain ⟨m, hm, hexp, hview⟩ := h.ap
   cases hch : w.chan with
@@ -452,31 +551,34 @@ theorem fresh_progress (w : World) (h : Inv w) (hf : Fresh w .recv) :
     have hstep : step w .recv = handleStreaming { w with chan := rest } (.batch (selectFrom w.log w.ap.exp w.limit) false) := by
       simp only [step, hch]; rw [if_pos hst]
     rw [hstep]
-    have hsel := selectFrom_eq w.log w.ap.exp w.limit h.noShared
-    rw [hexp] at hsel
-    simp only [Nat.add_sub_cancel] at hsel
+    have hwin : window w.log w.ap.exp w.limit = (w.log.drop m).take w.limit := by
+      unfold window; rw [hexp, Nat.add_sub_cancel]
+    have hlen := selectFrom_length w.log w.ap.exp w.limit h.noShared
+    have hqc := hq.2 w.ap.exp
+    have hwl : (window w.log w.ap.exp w.limit).length = min w.limit (w.log.length - m) := by
+      rw [hwin, List.length_take, List.length_drop]
     cases hes : selectFrom w.log w.ap.exp w.limit with
     | nil =>
-      -- nothing left to select: the limit is 0 or the cursor is at the end
+      -- nothing selected: the window is empty (the limit is 0 or the cursor is at the end)
       simp only [handleStreaming]
-      rw [hexp] at hes
-      rw [hsel] at hes
-      have hl : (List.take w.limit (List.drop m w.log)).length = 0 := by rw [hes]; rfl
-      rw [List.length_take, List.length_drop] at hl
-      show min (w.log.length + 1) (w.ap.exp + w.limit) ≤ w.ap.exp
+      rw [hes] at hlen
+      simp only [List.length_nil] at hlen
+      have hq1 := hq.1
+      show min (w.log.length + 1) (w.ap.exp + q) ≤ w.ap.exp
       omega
     | cons e t =>
       simp only [handleStreaming]
       have hinf : (e :: t) <:+: w.log := by rw [← hes]; exact selectFrom_infix _ _ _ h.noShared
-      have hes' : (w.log.drop m).take w.limit = e :: t := by rw [← hsel, ← hexp]; exact hes
-      obtain ⟨hseq, _⟩ := head_drop_seq w.log m w.limit e t h.noShared hes'
+      obtain ⟨t2, ht2⟩ := selectFrom_prefix w.log w.ap.exp w.limit h.noShared
+      rw [hes, hwin] at ht2
+      obtain ⟨hseq, _⟩ := head_drop_seq w.log m w.limit e (t ++ t2) h.noShared (by rw [← ht2]; rfl)
       obtain ⟨m', _, hap', hfull⟩ := applyBatch_infix w.log (e :: t) w.ap m h.noShared hinf ⟨hm, hexp, hview⟩
       obtain ⟨hm', hok⟩ := hfull e t rfl hseq
-      have hlen : (e :: t).length = min w.limit (w.log.length - m) := by
-        rw [← hes', List.length_take, List.length_drop]
+      rw [hes] at hlen
       have hexp' : (applyBatch w.ap (e :: t)).1.exp = m' + 1 := hap'.2.1
       rw [applyMsg_ok_ap { w with chan := rest } w.ap _ rfl hok]
-      show min (w.log.length + 1) (w.ap.exp + w.limit) ≤ (applyBatch w.ap (e :: t)).1.exp
+      show min (w.log.length + 1) (w.ap.exp + q) ≤ (applyBatch w.ap (e :: t)).1.exp
+      have hq1 := hq.1
       rw [hexp']; omega
 
 theorem freshCount_succ (x : Exec) (t : Nat) :
@@ -500,9 +602,12 @@ theorem exec_mono (x : Exec) (hq : Quiescent x) (h0 : Inv (x.w 0)) (t d : Nat) :
     rw [← x.next (t + d)] at this
     exact Nat.le_trans ih this
 
-/-- the ranking argument: after k fresh deliveries the cursor has moved by k·limit (or reached the end of the log) -/
-theorem exp_lower_bound (x : Exec) (hq : Quiescent x) (h0 : Inv (x.w 0)) (t : Nat) :
-    min ((x.w 0).log.length + 1) ((x.w 0).ap.exp + (x.w 0).limit * freshCount x t) ≤ (x.w t).ap.exp := by
+theorem Quantum.ext {w w' : World} {q : Nat} (h : Quantum w q) (e : Ext w w') : Quantum w' q := by
+  unfold Quantum at *; rw [e.log, e.limit]; exact h
+
+/-- the ranking argument: after k fresh deliveries the cursor has moved by k·q (or reached the end of the log) -/
+theorem exp_lower_bound (x : Exec) (hq : Quiescent x) (h0 : Inv (x.w 0)) (q : Nat) (hqu : Quantum (x.w 0) q) (t : Nat) :
+    min ((x.w 0).log.length + 1) ((x.w 0).ap.exp + q * freshCount x t) ≤ (x.w t).ap.exp := by
   induction t with
   | zero => simp [freshCount]; omega
   | succ t ih =>
@@ -513,9 +618,9 @@ theorem exp_lower_bound (x : Exec) (hq : Quiescent x) (h0 : Inv (x.w 0)) (t : Na
     by_cases hf : Fresh (x.w t) (x.a t)
     · rw [if_pos hf, Nat.mul_add, Nat.mul_one]
       have ha : x.a t = .recv := hf.1
-      have hp := fresh_progress (x.w t) hinv (ha ▸ hf)
-      rw [← ha, ← x.next t, hext.log, hext.limit] at hp
-      generalize (x.w 0).limit * freshCount x t = z at *
+      have hp := fresh_progress (x.w t) hinv q (hqu.ext hext) (ha ▸ hf)
+      rw [← ha, ← x.next t, hext.log] at hp
+      generalize q * freshCount x t = z at *
       omega
     · rw [if_neg hf, Nat.add_zero]
       exact Nat.le_trans ih hmono
@@ -541,21 +646,20 @@ theorem ceil_mul_ge (b l : Nat) (hl : 0 < l) : b ≤ l * ((b + l - 1) / l) := by
   generalize l * ((b + l - 1) / l) = z at *
   omega
 
-/-- number of fair rounds: ⌈backlog / limit⌉ fresh deliveries are enough -/
-theorem rounds_bound (x : Exec) (hq : Quiescent x) (h0 : Inv (x.w 0)) (hl : 0 < (x.w 0).limit) (t : Nat)
-    (hk : ((x.w 0).log.length + 1 - (x.w 0).ap.exp + (x.w 0).limit - 1) / (x.w 0).limit ≤ freshCount x t) :
+/-- number of fair rounds: with `q` entries per message guaranteed, ⌈backlog / q⌉ fresh deliveries are enough -/
+theorem rounds_bound (x : Exec) (hq : Quiescent x) (h0 : Inv (x.w 0)) (q : Nat) (hl : 0 < q) (hqu : Quantum (x.w 0) q) (t : Nat)
+    (hk : ((x.w 0).log.length + 1 - (x.w 0).ap.exp + q - 1) / q ≤ freshCount x t) :
     caughtUp (x.w t) ∧ converged (x.w t) := by
   obtain ⟨hinv, hext⟩ := exec_inv x hq h0 t
-  have hb := exp_lower_bound x hq h0 t
-  have hc := ceil_mul_ge ((x.w 0).log.length + 1 - (x.w 0).ap.exp) (x.w 0).limit hl
-  have hmul : (x.w 0).limit * (((x.w 0).log.length + 1 - (x.w 0).ap.exp + (x.w 0).limit - 1) / (x.w 0).limit)
-      ≤ (x.w 0).limit * freshCount x t := Nat.mul_le_mul_left _ hk
+  have hb := exp_lower_bound x hq h0 q hqu t
+  have hc := ceil_mul_ge ((x.w 0).log.length + 1 - (x.w 0).ap.exp) q hl
+  have hmul : q * (((x.w 0).log.length + 1 - (x.w 0).ap.exp + q - 1) / q) ≤ q * freshCount x t := Nat.mul_le_mul_left _ hk
   have hup := (exp_le (x.w t) hinv).2
   rw [hext.log] at hup
   have hcu : caughtUp (x.w t) := by
     unfold caughtUp; rw [hext.log]
-    generalize (x.w 0).limit * freshCount x t = z at *
-    generalize (x.w 0).limit * (((x.w 0).log.length + 1 - (x.w 0).ap.exp + (x.w 0).limit - 1) / (x.w 0).limit) = y at *
+    generalize q * freshCount x t = z at *
+    generalize q * (((x.w 0).log.length + 1 - (x.w 0).ap.exp + q - 1) / q) = y at *
     omega
   exact ⟨hcu, converged_of_caughtUp _ hinv hcu⟩
 
@@ -575,10 +679,10 @@ theorem stays_converged (w : World) (a : Act) (h : Inv w) (hc : caughtUp w) (ha 
 theorem converges (x : Exec) (hq : Quiescent x) (h0 : Inv (x.w 0)) (hl : 0 < (x.w 0).limit) (hf : Fair x) :
     ∃ T, ∀ t, T ≤ t → caughtUp (x.w t) ∧ (x.w t).ap.view = viewOf (x.w 0).log := by
   obtain ⟨T, hT⟩ := freshCount_unbounded x hf
-    (((x.w 0).log.length + 1 - (x.w 0).ap.exp + (x.w 0).limit - 1) / (x.w 0).limit)
+    (((x.w 0).log.length + 1 - (x.w 0).ap.exp + 1 - 1) / 1)
   refine ⟨T, fun t ht => ?_⟩
   obtain ⟨d, rfl⟩ := Nat.exists_eq_add_of_le ht
-  obtain ⟨hcu, _⟩ := rounds_bound x hq h0 hl T hT
+  obtain ⟨hcu, _⟩ := rounds_bound x hq h0 1 (by decide) (quantum_one _ hl) T hT
   obtain ⟨hinv, hext⟩ := exec_inv x hq h0 (T + d)
   obtain ⟨hinvT, hextT⟩ := exec_inv x hq h0 T
   have hm := exec_mono x hq h0 T d
@@ -607,11 +711,11 @@ theorem fresh_of_reconnect (w : World) (h : Inv w) (hs : w.stable = true) (hst :
   refine ⟨?_, i2, e1.trans e2⟩
   have hb1 : step w .backoff = { w with sessOpen := false, chan := [], st := stConnecting } := by
     simp only [step]; rw [if_pos hst, hst, table_backoff]
-  have hsel := selectFrom_eq w.log w.ap.exp w.limit h.noShared
   have hne : selectFrom w.log w.ap.exp w.limit ≠ [] := by
+    apply selectFrom_ne_nil _ _ _ h.noShared
     intro hnil
-    have : (selectFrom w.log w.ap.exp w.limit).length = 0 := by rw [hnil]; rfl
-    rw [hsel, List.length_take, List.length_drop] at this
+    have : (window w.log w.ap.exp w.limit).length = 0 := by rw [hnil]; rfl
+    rw [List.length_take, List.length_drop] at this
     omega
   have hfetch : fetch { w with sessOpen := true, startSeq := w.ap.exp, lastAck := w.ap.exp - 1, chan := [], st := stStreamingEntries } w.ap.exp
       = some (selectFrom w.log w.ap.exp w.limit) := by
@@ -635,11 +739,11 @@ theorem poll_is_fresh (w : World) (h : Inv w) (hs : w.stable = true) (ho : w.ses
     (hb : w.ap.exp ≤ w.log.length) : Fresh (step w .poll) .recv := by
   have hobs := h.obs hs
   have hnext := h.next
-  have hsel := selectFrom_eq w.log w.ap.exp w.limit h.noShared
   have hne : selectFrom w.log w.ap.exp w.limit ≠ [] := by
+    apply selectFrom_ne_nil _ _ _ h.noShared
     intro hnil
-    have : (selectFrom w.log w.ap.exp w.limit).length = 0 := by rw [hnil]; rfl
-    rw [hsel, List.length_take, List.length_drop] at this
+    have : (window w.log w.ap.exp w.limit).length = 0 := by rw [hnil]; rfl
+    rw [List.length_take, List.length_drop] at this
     have := (exp_le w h).1
     omega
   have hfetch : fetch w (w.lastAck + 1) = some (selectFrom w.log w.ap.exp w.limit) := by
